@@ -70,8 +70,12 @@ def clause_b(ctx, P):
     # the announcement sibling: same record set as prepare_announce
     ctx.ob("C09b.same-set-as-announce", fn.name, f4.record_set(P, fn) == f4.record_set(P, P.one("service_daemon::prepare_announce")), fn.loc(),
            "goodbye builds the same record kinds as the announcement")
+    goodbye_per_interface_and_family(ctx, P)
+
+
+def goodbye_per_interface_and_family(ctx, P, callers=("Zeroconf::exec_command_unregister", "Zeroconf::cleanup")):
     # per interface x family, in both callers
-    for caller in ("Zeroconf::exec_command_unregister", "Zeroconf::cleanup"):
+    for caller in callers:
         cf = P.one(caller)
         ctr = tracer(P, cf)
         cs = calls_to(cf, "Zeroconf::unregister_service")
